@@ -39,3 +39,17 @@ HARNESS(h_field) {
   P(ok && p == end, "un-quoting the written field gives back the field");
   WIT(N == 0 ? 1 : (has_special && IN_style == QS_MINIMAL && w == N + 2));
 }
+
+/* option plumbing: an encoder built by its real constructor from csv_options quotes with exactly the characters the options name */
+INPUT(u32, IN_sub)
+HARNESS(h_plumb) {
+  HAVOC(IN_style); HAVOC(IN_delim); HAVOC(IN_quote); HAVOC(IN_esc); HAVOC(IN_sub);
+  ASSUME(IN_style <= 3 && IN_delim < 256 && IN_quote < 256 && IN_esc < 256 && IN_sub < 256);
+  u8 out[5]; memset(out, 0xee, 5); k_csv_plumb(IN_style, (u8)IN_delim, (u8)IN_quote, (u8)IN_esc, (u8)IN_sub, out);
+  P(out[0] == IN_style, "encoder quote_style is the option's");
+  P(out[1] == IN_delim, "encoder field delimiter is the option's");
+  P(out[2] == IN_quote, "encoder quote character is the option's");
+  P(out[3] == IN_esc, "encoder quote escape character is the option's");
+  P(out[4] == IN_sub, "encoder subfield delimiter is the option's");
+  WIT(IN_quote != IN_esc && IN_delim == ';');
+}
